@@ -31,7 +31,7 @@ Definition py_pd (a b : pdt) : result pdiff :=
   | Raise e => Raise e
   | Ok r => if p_eqb a b then Ok r else if negb (p_comparable a b) then Raise E_TypeError else Ok r
   end.
-Definition rs_pd (a b : pdt) (exact2 : bool) : result pdiff := Ok (rs_precise_diff a b exact2).
+Definition rs_pd (a b : pdt) : result pdiff := Ok (rs_precise_diff a b).
 
 Definition in_domain (a : pdt) : bool := negb (p_aware a) || wall_in_range (p_instant a).
 
@@ -47,21 +47,21 @@ Definition dispatch (fn : Z) (args : list Z) : list Z :=
   | 1 (* py_precise_diff *), [y1;m1;d1;h1;i1;s1;u1;o1;t1;n1;b1;k1; y2;m2;d2;h2;i2;s2;u2;o2;t2;n2;b2;k2] =>
       let a := mkpdt y1 m1 d1 h1 i1 s1 u1 o1 (zb t1) n1 b1 (zb k1) in let b := mkpdt y2 m2 d2 h2 i2 s2 u2 o2 (zb t2) n2 b2 (zb k2) in
       guard a b (of_pd (py_pd a b))
-  | 2 (* rs_precise_diff *), [y1;m1;d1;h1;i1;s1;u1;o1;t1;n1;b1;k1; y2;m2;d2;h2;i2;s2;u2;o2;t2;n2;b2;k2; ex] =>
+  | 2 (* rs_precise_diff *), [y1;m1;d1;h1;i1;s1;u1;o1;t1;n1;b1;k1; y2;m2;d2;h2;i2;s2;u2;o2;t2;n2;b2;k2] =>
       let a := mkpdt y1 m1 d1 h1 i1 s1 u1 o1 (zb t1) n1 b1 (zb k1) in let b := mkpdt y2 m2 d2 h2 i2 s2 u2 o2 (zb t2) n2 b2 (zb k2) in
-      guard a b (of_pd (rs_pd a b (zb ex)))
+      guard a b (of_pd (rs_pd a b))
   | 3 (* py_interval *), [y1;m1;d1;h1;i1;s1;u1;o1;t1;n1;b1;k1; y2;m2;d2;h2;i2;s2;u2;o2;t2;n2;b2;k2] =>
       let a := mkpdt y1 m1 d1 h1 i1 s1 u1 o1 (zb t1) n1 b1 (zb k1) in let b := mkpdt y2 m2 d2 h2 i2 s2 u2 o2 (zb t2) n2 b2 (zb k2) in
       guard a b (of_ivc (interval_of (py_pd a b) a b))
   | 4 (* rs_interval *), [y1;m1;d1;h1;i1;s1;u1;o1;t1;n1;b1;k1; y2;m2;d2;h2;i2;s2;u2;o2;t2;n2;b2;k2] =>
       let a := mkpdt y1 m1 d1 h1 i1 s1 u1 o1 (zb t1) n1 b1 (zb k1) in let b := mkpdt y2 m2 d2 h2 i2 s2 u2 o2 (zb t2) n2 b2 (zb k2) in
-      guard a b (of_ivc (interval_of (rs_pd a b true) a b))
+      guard a b (of_ivc (interval_of (rs_pd a b) a b))
   | 5 (* py_rebuild *), [y1;m1;d1;h1;i1;s1;u1;o1;t1;n1;b1;k1; y2;m2;d2;h2;i2;s2;u2;o2;t2;n2;b2;k2] =>
       let a := mkpdt y1 m1 d1 h1 i1 s1 u1 o1 (zb t1) n1 b1 (zb k1) in let b := mkpdt y2 m2 d2 h2 i2 s2 u2 o2 (zb t2) n2 b2 (zb k2) in
       guard a b (of_dt (rebuild_of (py_pd a b) a b))
   | 6 (* rs_rebuild *), [y1;m1;d1;h1;i1;s1;u1;o1;t1;n1;b1;k1; y2;m2;d2;h2;i2;s2;u2;o2;t2;n2;b2;k2] =>
       let a := mkpdt y1 m1 d1 h1 i1 s1 u1 o1 (zb t1) n1 b1 (zb k1) in let b := mkpdt y2 m2 d2 h2 i2 s2 u2 o2 (zb t2) n2 b2 (zb k2) in
-      guard a b (of_dt (rebuild_of (rs_pd a b true) a b))
+      guard a b (of_dt (rebuild_of (rs_pd a b) a b))
   | 7 (* dt_add *), [y1;m1;d1;h1;i1;s1;u1;o1;t1;n1;b1;k1; yy;mo;ww;dd;hh;mi;ss;us] =>
       let a := mkpdt y1 m1 d1 h1 i1 s1 u1 o1 (zb t1) n1 b1 (zb k1) in
       of_dt (dt_add a yy mo ww dd hh mi ss us)
